@@ -44,6 +44,15 @@ Qed.
 (* reflexivity when the source is written as the model is; otherwise arithmetic on the boolean expressions *)
 Theorem go_Is1_eq c : wf_rgba c -> go_ivg_Is1 c = is1 c.
 Proof. intros (Hr & Hg & Hb & Ha). unfold wf_chan in *. first [reflexivity | cbv beta zeta delta [go_ivg_Is1 is1 is1u]; unwrap; lia]. Qed.
+(* Color.Is1: a direct RGBA colour whose channels are all 1-byte-form levels; never an indirect colour *)
+Definition color_is1 (c : color) : bool := match c with CRGBA d => is1 d | _ => false end.
+Theorem go_Color_Is1_eq c : wf_gcolor c -> go_ivg_Color_Is1 c = color_is1 (abs_color c).
+Proof.
+  intros (Ht & Wd & _). unfold go_ivg_Color_Is1, abs_color, color_is1.
+  destruct (gtyp c =? 0) eqn:E0; cbn [andb].
+  - apply go_Is1_eq; exact Wd.
+  - destruct (gtyp c =? 1); [reflexivity|]. destruct (gtyp c =? 2); reflexivity.
+Qed.
 Theorem go_Is2_eq c : wf_rgba c -> go_ivg_Is2 c = is2 c.
 Proof. intros (Hr & Hg & Hb & Ha). unfold wf_chan in *. first [reflexivity | cbv beta zeta delta [go_ivg_Is2 is2 is2u]; unwrap; lia]. Qed.
 Theorem go_Is3_eq c : wf_rgba c -> go_ivg_Is3 c = is3 c.
